@@ -550,6 +550,10 @@ def BSeg.hand (g : BSeg) : BSeg :=
   if g.handed then g
   else { g with blocks := g.blocks.map (fun b => { b with deliv := b.pix }), handed := true }
 
+/-- one iteration of the hand-over loop of `NITFWriter.flush(force)` (nitf.py:4124-4134): a segment that is already
+    written or already has its bytes is skipped; otherwise it is handed over when `force` or when it claims -/
+def shouldHand (handed force claims : Bool) : Bool := !handed && (force || claims)
+
 structure WBState where
   closed : Bool
   gone : Bool
